@@ -213,6 +213,10 @@ def entry_of(name):
 
 # ----------------------------------------------------------------------------- the C13 check
 
+# families whose (x, y, cb, t) fields only encode a generator seed
+GENERATED = ("seq", "rand_algo")
+
+
 def select_programs(names, tier, seed):
     """quick: every in-range program plus a seed-rotated 1/7 slice of the programs with bad arguments or
     panicking callbacks (always one program per (entry point, representation)); thorough: the whole
@@ -231,22 +235,24 @@ def select_programs(names, tier, seed):
     # unchecked fast path hides: nothing is there to be rejected), at 0 / 2 simulated CPUs; every conversion
     for i, n in enumerate(names):
         parts = n.split("/")
-        if parts[0] == "seq":
+        if parts[0] in GENERATED:
             continue
         if parts[0].startswith("from_") or (parts[3] in ("in0", "inlast") and parts[4] in ("in0", "inlast")
                                             and parts[5] == "cb0" and parts[6] in ("t0", "t2")):
             chosen.add(i)
     stride = 7
     off = seed % stride
-    chosen.update(i for i in range(off, len(names), stride) if not names[i].startswith("seq/"))
-    # generated call sequences are the slowest programs under Miri: a rotating 1/20 of them in quick
-    seqs = [i for i, n in enumerate(names) if n.startswith("seq/")]
-    chosen.update(seqs[seed % 20::20])
+    chosen.update(i for i in range(off, len(names), stride) if names[i].split("/")[0] not in GENERATED)
+    # generated call sequences and generated structures are the slowest programs under Miri: a rotating
+    # 1/20 of each in quick
+    for fam in GENERATED:
+        gen = [i for i, n in enumerate(names) if n.startswith(fam + "/")]
+        chosen.update(gen[seed % 20::20])
     return sorted(chosen)
 
 
 def threaded_programs(names):
-    return [i for i, n in enumerate(names) if n.split("/")[6] != "t0" and not n.startswith("seq/")]
+    return [i for i, n in enumerate(names) if n.split("/")[6] != "t0" and n.split("/")[0] not in GENERATED]
 
 
 def write_replay(pid, seed, f, flags):
